@@ -335,3 +335,16 @@ Example C05_instance_condense :
   = Some ([[(2, 3%Z); (1, 0%Z); (0, 5%Z)]; [(1, 2%Z)]; [(2, 7%Z); (0, 8%Z)]], [12; -91; -593]%Z, [100; 101; 102; 103]%Z, [2; 0; 3]).
 Proof. vm_compute. reflexivity. Qed.
 Print Assumptions C05_instance_condense.
+
+(* empty selections (np.array([]) for D or I): the empty list denotes the empty set; the theorems above cover it (given_ok n []
+   holds); the two extreme splits computed on the example matrix: nothing constrained / nothing kept *)
+Example C05_instance_empty_selection :
+  gen_flatten_array [] = [] /\
+  gen_init_bc 4 None (Some (gen_flatten_array [])) = Some ([0; 1; 2; 3], []) /\
+  gen_init_bc 4 (Some (gen_flatten_array [])) None = Some ([], [0; 1; 2; 3]) /\
+  condense Zops (csr_rows ex_A) [10; 11; 12; 13]%Z [100; 101; 102; 103]%Z (Some []) None
+    = Some ([], [], [100; 101; 102; 103]%Z, []) /\
+  option_map snd (enforce Zops gen_enforce_idx ex_A [10; 11; 12; 13]%Z [100; 101; 102; 103]%Z None (Some []) 7%Z)
+    = Some [10; 11; 12; 13]%Z.
+Proof. vm_compute. repeat split; reflexivity. Qed.
+Print Assumptions C05_instance_empty_selection.
